@@ -70,7 +70,7 @@ Fixpoint mapM_pre {A B} (f : A -> option B) (l : list A) : list B * bool :=
 
 Definition otlp_res_stream (q : quirks) (r : ores) : list span_rows * bool :=
   let spans := List.concat (r_scopes r) in
-  if r_has_res r then mapM_pre (otlp_span q (r_attrs r)) spans
+  if r_has_res r || negb (q_nil_resource q) then mapM_pre (otlp_span q (res_attrs r)) spans
   else ([], match spans with [] => false | _ => true end).
 
 Fixpoint otlp_stream (q : quirks) (b : list ores) : list span_rows * bool :=
